@@ -182,7 +182,7 @@ def main(argv):
                          "prints what the structured model prints; Moq.bridge, Moq.bridge_file; Moq.bridge_bodies: every method body "
                          "of that file is genBody/genCallsBody/genResetBody, the Stmt lists of the C03-C08 theorems)",
             "proved_on_this_tree": b is True,
-            "axioms": {t: ax_of(t) for t in ("bridge", "bridge_file", "bridge_bodies")} if b is True else None,
+            "axioms": {t: ax_of(t) for t in ("bridge", "bridge_file", "bridge_bodies", "bridge_header")} if b is True else None,
             "if_not": None if b is True else ("soft obligation: %s; the per-input comparison gf=eq is the tie" % str(b)[:300])}
     samples = []
     disagreements = []
